@@ -139,6 +139,12 @@ def cancelCouldWin (e : Option Nat) : List Ev → Bool
   | .cbegin _ e' :: rest => e' = e || cancelCouldWin e rest
   | _ :: rest => cancelCouldWin e rest
 
+/-- some `cancel(e)` call began (before the return). -/
+def cancelBegan (e : Option Nat) (h : List Ev) : Bool :=
+  h.any fun ev => match ev with
+    | .cbegin _ e' => e' = e
+    | _ => false
+
 /-- the outcomes possible for the schedule that happened (`h` = observed history, `mapped` = the items
 handed to a mapper).  Sound for the real code by the happens-before argument above. -/
 def allowedAt (mapped : List Nat) (h : List Ev) (r : Res) : Bool :=
